@@ -24,10 +24,18 @@
   `remapDependencies` (public imports flattened; extras sorted).
 
   Quirks kept as coded: enclosing-only messages lose fields/oneofs/ranges/reserved and their
-  comments; a field is dropped iff its type is excluded (no special case for map entries, oneof
-  indices of remaining fields are not renumbered); `hasType` of an untouched element is true iff
-  no include was given.  `Cfg.typelessErr` / `Cfg.svcMarksInput` select the two pre-fix behaviours
-  (defects 9a, 9b of DESIGN §7) — `cfgFixed` is the current code, `cfgOld` documents the old one.
+  comments; a field is dropped iff its type is excluded (no special case for map entries);
+  `hasType` of an untouched element is true iff no include was given.  When a oneof is dropped
+  (no member survives) the `oneof_index` of the kept fields follows the oneofs that move down
+  (`newOneofIndexes`, `renumberOneof`; an out-of-range index is left alone, as in the Go code).
+  An extension whose value type is excluded is marked excluded BEFORE its extendee is added, so
+  it contributes neither the extendee nor the import of the extendee's file.
+  `Cfg` selects the pre-fix behaviours: `typelessErr` / `svcMarksInput` / `keepsInputWhenEmpty`
+  (defects 9a, 9b, 9f of DESIGN §7), `staleOneofIndex` (9d: oneof indexes not renumbered),
+  `extendeeFirst` (the extendee of an extension and its import are recorded before the value
+  type is examined), `silentExtDrop` (an included extension whose value type is excluded is
+  silently dropped instead of being an error) — `cfgFixed` is the current code, `cfgOld`
+  documents the old one.
   Not modelled: weak dependencies, the `dirty`/identity short cuts (no observable difference),
   `UnusedDependencyIndexes`, iteration order of Go maps (includes are processed in the order
   given; `addExtensions` iterates a snapshot of the explicit messages in index order).
@@ -132,10 +140,24 @@ structure Cfg where
                            -- remapMethod does not look at the request/response types
   keepsInputWhenEmpty : Bool  -- pre-fix 9f: when no file survives, `dirty` is still false and the
                            -- *unfiltered input image* is returned
+  staleOneofIndex : Bool   -- pre-fix 9d: a dropped oneof is removed but `oneof_index` of the kept
+                           -- fields of later oneofs is not renumbered
+  extendeeFirst : Bool     -- pre-fix: addElement(extension) adds the extendee (recording the import of
+                           -- its file) before it looks at the value type; an extension dropped for
+                           -- its value type then leaves the extendee and that import behind
+  silentExtDrop : Bool     -- pre-fix: includeType checks the extendee of an included extension but not
+                           -- its value type; with an excluded value type the filter succeeds and the
+                           -- extension is silently absent
 deriving Repr
 
-def cfgFixed : Cfg := ⟨false, false, false⟩
-def cfgOld : Cfg := ⟨true, true, true⟩
+def cfgFixed : Cfg := ⟨false, false, false, false, false, false⟩
+def cfgOld : Cfg := ⟨true, true, true, true, true, true⟩
+/-- the code before the repair of `oneof-index-not-renumbered` only -/
+def cfgStaleOneof : Cfg := { cfgFixed with staleOneofIndex := true }
+/-- the code before the repair of `dropped-extension-leaves-extendee-import` only -/
+def cfgExtendeeFirst : Cfg := { cfgFixed with extendeeFirst := true }
+/-- the code before the repair of `included-extension-silently-dropped` only -/
+def cfgSilentExtDrop : Cfg := { cfgFixed with silentExtDrop := true }
 
 inductive Err | notFound | isImport | conflict | missing | fuel | internal | empty
 deriving DecidableEq, Repr
@@ -261,6 +283,12 @@ def fieldIncluded (st : St) (f : Field) : Bool :=
   | none => true
   | some t => !st.isExcl (.el t)
 
+/-- the value type of an extension is already excluded -/
+def typeExcluded (st : St) (f : Field) : Bool :=
+  match f.ty with
+  | none => false
+  | some t => st.isExcl (.el t)
+
 def oneofsStep (st : St) (i : Info) : List Oneof → Nat → St × List Task
   | [], _ => (st, [])
   | o :: os, n =>
@@ -296,6 +324,8 @@ def expand (c : Ctx) (st : St) (k : Key) (ref : Option Id) (implied : Bool) (i :
       | none => .error .internal
       | some e =>
         if st.isExcl (.el e) then .ok (st.set k .excluded, [])
+        -- (fix) the value type is looked at before the extendee is added
+        else if !c.cfg.extendeeFirst && typeExcluded st f then .ok (st.set k .excluded, [])
         else .ok (st, [Task.add (.el e) (some i.file) implied, Task.extType k ref])
 
 def newMode (implied : Bool) : Mode := if implied then .implicit else .explicit
@@ -401,12 +431,20 @@ def extendeeExcluded (st : St) (i : Info) : Bool :=
   | some f => (match f.extendee with | some e => st.isExcl (.el e) | none => false)
   | none => false
 
+/-- includeType's second check for an extension: the value type is excluded -/
+def extTypeExcluded (st : St) (i : Info) : Bool :=
+  match i.fld with
+  | some f => f.extendee.isSome && typeExcluded st f
+  | none => false
+
 def includeType (c : Ctx) (img : Image) (o : Opts) (fuel : Nat) (st : St) (n : Id) : Except Err St :=
   match c.idx.find (.el n) with
   | some i =>
     if !o.allowImported && isImportFile img i.file then .error .isImport
     else if st.isExcl i.key then .error .conflict
     else if extendeeExcluded st i then .error .conflict
+    -- (fix) … and so is an extension whose value type is excluded
+    else if !c.cfg.silentExtDrop && extTypeExcluded st i then .error .conflict
     else run c fuel st [.add i.key none false]
   | none =>
     if !img.pkgs.contains n then .error .notFound
@@ -462,6 +500,7 @@ structure RCtx where
   st : St
   noInc : Bool
   methodIO : Bool := true   -- remapMethod also filters by request/response type (the fix of 9b)
+  renumber : Bool := true   -- remapDescriptor rewrites `oneof_index` of the kept fields (the fix of 9d)
 
 def RCtx.has (c : RCtx) (k : Key) : Bool := hasType c.st c.noInc k
 
@@ -500,6 +539,22 @@ def remapService (c : RCtx) (path : List Nat) (s : Service) : Option Service × 
 def remapOneof (c : RCtx) (msg : Id) (path : List Nat) (o : Oneof) : Option Oneof × Marks :=
   if c.st.get (.oneof msg (path.getLast?.getD 0)) = some .excluded then (none, []) else (some o, [])
 
+/-- remapDescriptor's `newOneofIndexes`: entry `n` is the number of oneofs before `n` that are kept
+    (`idx` = index of the head, `next` = its new index). -/
+def newOneofIndexes (st : St) (msg : Id) : Nat → Nat → Nat → List Nat
+  | 0, _, _ => []
+  | n + 1, idx, next =>
+    next :: newOneofIndexes st msg n (idx + 1) (if st.get (.oneof msg idx) = some .excluded then next else next + 1)
+
+/-- the wrapper around remapField in remapDescriptor: a kept field gets the new index of its oneof
+    (an index outside the table is left alone) -/
+def renumberOneof (tbl : List Nat) (f : Field) : Field :=
+  match f.oneof with
+  | none => f
+  | some i => match tbl[i]? with
+    | some j => { f with oneof := some j }
+    | none => f
+
 mutual
 def remapMsg (c : RCtx) (path : List Nat) : Msg → Option Msg × Marks
   | .mk id fields oneofs exts nested enums rangeOpts reserved mapEntry opts =>
@@ -517,7 +572,8 @@ def remapMsg (c : RCtx) (path : List Nat) : Msg → Option Msg × Marks
       else
         let rf := remapSlice (path ++ [2]) (remapField c) fields 0 0
         let ro := remapSlice (path ++ [8]) (remapOneof c id) oneofs 0 0
-        (some (.mk id rf.1 ro.1 re.1 rn.1 rm.1 rangeOpts reserved mapEntry opts), rf.2 ++ ro.2 ++ re.2 ++ rn.2 ++ rm.2)
+        let fs := if c.renumber then rf.1.map (renumberOneof (newOneofIndexes c.st id oneofs.length 0 0)) else rf.1
+        (some (.mk id fs ro.1 re.1 rn.1 rm.1 rangeOpts reserved mapEntry opts), rf.2 ++ ro.2 ++ re.2 ++ rn.2 ++ rm.2)
 def remapMsgs (c : RCtx) (path : List Nat) : List Msg → Nat → Nat → List Msg × Marks
   | [], _, to => ([], if to = 0 then [(path, .deleted)] else [])
   | x :: xs, fr, to =>
@@ -606,7 +662,7 @@ def unfiltered (f : File) : OFile := ⟨f.id, f.deps.map (·.file), f.msgs, f.en
 /-- The tail of filterImage: files not in `closure.imports` are dropped; a file that is filtered
     out although another kept file requires it is the syserror. -/
 def rewrite (cfg : Cfg) (st : St) (noInc : Bool) (img : Image) : Except Err (List OFile) :=
-  let c : RCtx := ⟨st, noInc, !cfg.svcMarksInput⟩
+  let c : RCtx := ⟨st, noInc, !cfg.svcMarksInput, !cfg.staleOneofIndex⟩
   -- `closure.imports[path]` exists when the file was the target of addImport *or* the source of an
   -- import edge (addImport creates `imports[fromPath]` as a side effect)
   let cand := img.files.filter (fun f => st.seen.contains f.id || st.edges.any (fun e => e.1 = f.id))
